@@ -680,6 +680,11 @@ func (fr *Frame) evalCall(e *Expr, env *Env, st *State, old *State) *Val {
 		}
 		w.declFun(e.name, sorts, "Str")
 		return term(app(e.name, ts...), types.Typ[types.String])
+	case "allocated":
+		// allocated(x): the object x refers to exists in the state where the expression is evaluated (so anything
+		// allocated later is a different object)
+		x := arg(0)
+		return term(fmt.Sprintf("(< (birth %s) %s)", fr.refOf(x), st.now), B)
 	case "preexisting":
 		x := arg(0)
 		return term(fmt.Sprintf("(< (birth %s) %s)", fr.refOf(x), u.entryNow), B)
